@@ -434,7 +434,8 @@ class MeasurementConverter:
         pass
     return trial.Measurement(
         metrics=metrics,
-        elapsed_secs=proto.elapsed_duration.seconds,
+        elapsed_secs=proto.elapsed_duration.seconds
+        + 1e-9 * proto.elapsed_duration.nanos,
         steps=proto.step_count,
     )
 
@@ -448,7 +449,7 @@ class MeasurementConverter:
     proto.step_count = measurement.steps
     int_seconds = int(measurement.elapsed_secs)
     proto.elapsed_duration.seconds = int_seconds
-    proto.elapsed_duration.nanos = int(
+    proto.elapsed_duration.nanos = round(
         1e9 * (measurement.elapsed_secs - int_seconds)
     )
     return proto
